@@ -301,6 +301,7 @@ def wide_scan(ctx, eng, record=False):
         wanted = {bb for (bb, _, _) in sites}
         hits = {}
         eng.block_budget = 60000
+        eng.unsupported_as_outcome = True       # a path that leaves the executor's vocabulary ends there; see `cut` below
         try:
             args = [fresh_arg(eng, st, ty, 'a%d' % i) for i, (_, ty) in enumerate(fn.params)]
             outs = eng.run(name, args, st)
@@ -309,6 +310,8 @@ def wide_scan(ctx, eng, record=False):
             err = '%s: %s' % (type(e).__name__, e)
         finally:
             eng.block_budget = None
+            eng.unsupported_as_outcome = False
+        cut = [o for o in (outs or []) if o.kind == 'unsupported']
         for (bb, span, t) in sites:
             label = 'wide-scan/%s/new-subtraction `%s`' % (short_name(name), t[:80])
             if outs is None:
@@ -316,6 +319,9 @@ def wide_scan(ctx, eng, record=False):
                 continue
             pcs = [o for o in outs if o.kind == 'panic' and o.info.get('fn') == name and o.info.get('bb') == bb]
             if not pcs:
+                if cut:
+                    ctx.inconclusive.append('%s: no failing path found, but %d paths ended outside the executor (%s)' % (label, len(cut), str(cut[0].info.get('msg'))[:120]))
+                    continue
                 # not reached as a failing assert on any explored path: safe within the exploration bound
                 ctx.prop(label + '/cannot-underflow(within the loop bound)', [], z3.BoolVal(False), [], None, twin=False)
                 continue
@@ -355,6 +361,31 @@ mod a { mod b { mod c { mod d { mod e {
 '''
 
 
+STRESS3 = r'''
+fn every_expression_kind(input: usize) -> usize {
+    let task = async move { first_call().await; second_call().await };
+    let other = async { alpha().await; beta().await; gamma().await };
+    let u = unsafe { dangerous_call(input); another_dangerous_call(input) };
+    let c = const { 1 + 2 + 3 + 4 + 5 + 6 + 7 + 8 + 9 + 10 + 11 + 12 };
+    let closure = move |left: usize, right: usize| -> usize { helper(left); left + right };
+    let Some(value) = optional_value(input) else { return_early(); return 0 };
+    let tuple = (first_element(input), second_element(input), third_element(input));
+    let array = [element_one(input), element_two(input), element_three(input)];
+    let casted = long_function_name(input) as u64 as u32 as u16 as u8 as usize;
+    let ranged = &array[lower_bound(input)..=upper_bound(input)];
+    let chain = input.checked_add(1).and_then(|v| v.checked_mul(2)).unwrap_or(0).max(3);
+    let lit = SomeStruct { field_one: input, field_two: input + 1, ..Default::default() };
+    'outer: loop { while input > 0 { for i in 0..input { if i > 3 { break 'outer; } else { continue; } } } }
+    let m = match input { 0 | 1 => first(), n if n > 100 && n < 1000 => second(n), _ => third() };
+    let r = if input > 1 { branch_one(input) } else if input > 0 { branch_two(input) } else { 0 };
+    let q = fallible(input)?.another_fallible(input)?.yet_another(input)?;
+    let t: Result<usize, String> = try_call(input).map_err(|e| format!("failed with {e} for {input}"));
+    macro_call!(input, input + 1, "some string literal", nested_call(input, input));
+    return binary(input) + binary(input) * binary(input) - binary(input) / binary(input);
+}
+'''
+
+
 def make_corpus_replay(ctx, span):
     def replay(model, r):
         bins = ensure_bins()
@@ -366,7 +397,7 @@ def make_corpus_replay(ctx, span):
         shutil.rmtree(d, ignore_errors=True)
         os.makedirs(d)
         files = []
-        for i, txt in enumerate((STRESS, STRESS2)):
+        for i, txt in enumerate((STRESS, STRESS2, STRESS3)):
             p = os.path.join(d, 'stress%d.rs' % i)
             open(p, 'w').write(txt)
             files.append(p)
@@ -376,14 +407,14 @@ def make_corpus_replay(ctx, span):
                     if f.endswith('.rs'):
                         files.append(os.path.join(dp, f))
         cfgs = ['max_width=%d,wrap_comments=true,format_strings=true,normalize_comments=true,format_code_in_doc_comments=true%s' % (mw, extra)
-                for mw in (20, 34, 40, 60) for extra in ('', ',hard_tabs=true', ',style_edition=2024')]
+                for mw in (20, 26, 34, 40, 60) for extra in ('', ',hard_tabs=true', ',style_edition=2024')]
         env = run_env()
-        jobs = [(f, c) for f in files[:2] for c in cfgs] + [(f, c) for f in files[2:] for c in cfgs[:4]]
+        jobs = [(f, c) for f in files[:3] for c in cfgs] + [(f, c) for f in files[3:] for c in cfgs[:4]]
 
         def one(job):
             f, c = job
             try:
-                pr = subprocess.run([rf, '--emit', 'stdout', '--quiet', '--config', c, f], capture_output=True, text=True, env=env, timeout=60)
+                pr = subprocess.run([rf, '--edition', '2021', '--emit', 'stdout', '--quiet', '--config', c, f], capture_output=True, text=True, env=env, timeout=60)
             except subprocess.TimeoutExpired:
                 return None
             if 'panicked at' in pr.stderr:
